@@ -90,14 +90,16 @@ Qed.
 
 Lemma estep_fresh t s s' : estep t s s' -> fresh_at t s s'.
 Proof.
-  intros Hs. destruct Hs as [id iri Hfree _ | id Hfree _ | id a Hfree _ | r Hfree _ | id rid Hfree _ _];
-    try (apply fresh_at_refl).
+  intros Hs. destruct Hs as [id iri Hfree _ | id Hfree _ | id a Hfree _ | r Hfree _ | id rid Hfree _ _].
+  - split; intros; left; assumption.
   - split; [|intros; left; assumption]. intros id' t'. unfold get_anchor in *. cbn.
     destruct (bytes_eqb id' id) eqn:E; [|intros; left; assumption].
     apply bytes_eqb_eq in E. subst id'. intros [= <-]. right. split; [exact Hfree | reflexivity].
   - split; [intros; left; assumption|]. intros id' a' t'. unfold get_attestor in *. cbn - [att_key_eqb].
     destruct (att_key_eqb (id', a') (id, a)) eqn:E; [|intros; left; assumption].
     apply att_key_eqb_ok in E. injection E as -> ->. intros [= <-]. right. split; [exact Hfree | reflexivity].
+  - split; intros; left; assumption.
+  - split; intros; left; assumption.
 Qed.
 
 Lemma esteps_fresh t s s' : esteps t s s' -> fresh_at t s s'.
@@ -198,9 +200,10 @@ Section C16.
   Proof.
     induction l as [|[a0 v0] l IH]; cbn; [intros _ []|].
     intros Hnd H1 H2. inversion Hnd as [|? ? Hnotin Hnd']; subst.
-    destruct H1 as [[= -> ->] | H1], H2 as [[= -> E2] | H2]; try reflexivity.
-    - exfalso. apply Hnotin. apply (in_map snd) in H2. exact H2.
-    - subst v0. exfalso. apply Hnotin. apply (in_map snd) in H1. exact H1.
+    destruct H1 as [E1 | H1], H2 as [E2 | H2].
+    - congruence.
+    - injection E1 as -> ->. exfalso. apply Hnotin. apply (in_map snd) in H2. exact H2.
+    - injection E2 as -> ->. exfalso. apply Hnotin. apply (in_map snd) in H1. exact H1.
     - eapply IH; eassumption.
   Qed.
 
